@@ -191,6 +191,18 @@ class Op:
             raise ValueError(fail)
 
     def setup(self, d):
+        destdir = self.desc.get("destdir")
+        if destdir:
+            # the destination path is an existing directory (empty / holding a file and a sub-directory)
+            p = os.path.join(d, self.dest)
+            os.mkdir(p)
+            if destdir == "nonempty":
+                with open(os.path.join(p, "keep.txt"), "wb") as f:
+                    f.write(b"kept\n")
+                os.mkdir(os.path.join(p, "sub"))
+                with open(os.path.join(p, "sub", "inner.txt"), "wb") as f:
+                    f.write(b"inner\n")
+            return
         if self.pre:
             with open(os.path.join(d, self.dest), "wb") as f:
                 f.write(self.old)
@@ -302,17 +314,64 @@ def _store_dump(path, kind):
     return sorted(out)
 
 
-def _apply(indir, out, kind, counter, kill_at, logger):
+def _store_meta(path, kind):
+    """store-level state, read without the library: sqlite3 / os only"""
+    if kind == "dir":
+        subdirs = sorted(e for e in os.listdir(path) if os.path.isdir(os.path.join(path, e)))
+        logs = os.path.join(path, "logs")
+        nlogs = len(os.listdir(logs)) if os.path.isdir(logs) else 0
+        md5 = os.path.join(path, "md5")
+        nmd5 = len(os.listdir(md5)) if os.path.isdir(md5) else 0
+        top = sorted(e for e in os.listdir(path) if os.path.isfile(os.path.join(path, e)))
+        nc = os.path.join(path, "not_completed")
+        nnc = len(os.listdir(nc)) if os.path.isdir(nc) else 0
+        return {"subdirs": subdirs, "has_log": nlogs > 0, "n_md5": nmd5, "n_completed_files": len(top), "n_not_completed_files": nnc}
+    import sqlite3
+
+    db = sqlite3.connect(f"file:{path}?mode=ro", uri=True)
+    try:
+        cur = db.execute("SELECT * FROM state")
+        cols = [c[0] for c in cur.description]
+        state = [{c: v for c, v in zip(cols, row) if "lock" not in c and "pid" not in c} for row in cur.fetchall()]
+        counts = dict(db.execute("SELECT is_completed, COUNT(*) FROM results GROUP BY is_completed").fetchall())
+        nlogs = db.execute("SELECT COUNT(*) FROM logs").fetchone()[0]
+        tables = sorted(r[0] for r in db.execute("SELECT name FROM sqlite_master WHERE type='table'").fetchall())
+    finally:
+        db.close()
+    return {"state": state, "n_completed": counts.get(1, 0), "n_not_completed": counts.get(0, 0), "has_log": nlogs > 0, "tables": tables}
+
+
+def _apply(indir, out, kind, counter, kill_at, logger, ids=None, kill_after_writes=None):
     from cogent3 import get_app, open_data_store
 
     tag = _define_tag(serialisable=kind != "dir")
-    ins = open_data_store(indir, suffix="fasta", mode="r")
+    if ids is None:
+        ins = open_data_store(indir, suffix="fasta", mode="r")
+    else:
+        # an ordered list of paths: the processing order is the harness's choice
+        ins = [os.path.join(indir, name + ".fasta") for name in ids]
     if kind == "dir":
         outds = open_data_store(out, suffix="fasta", mode="a")
         writer = get_app("write_seqs", data_store=outds, format="fasta")
     else:
         outds = open_data_store(out, mode="a")
         writer = get_app("write_db", data_store=outds)
+    if kill_after_writes is not None:
+        # the process ends right after the store accepted its n-th record (completed or not), before apply_to finishes
+        state = {"n": 0}
+
+        def counting(orig):
+            def wrapped(*a, **kw):
+                r = orig(*a, **kw)
+                state["n"] += 1
+                if state["n"] == kill_after_writes:
+                    os._exit(9)
+                return r
+
+            return wrapped
+
+        outds.write = counting(outds.write)
+        outds.write_not_completed = counting(outds.write_not_completed)
     app = get_app("load_unaligned", moltype="dna", format="fasta") + tag(counter_file=counter, kill_at=kill_at) + writer
     app.apply_to(ins, show_progress=False, logger=None if logger else False)
     try:
@@ -390,24 +449,29 @@ def resume_main(spec_path, out_path):
             ext = "" if kind == "dir" else ".sqlitedb"
             ref_out = os.path.join(work, "ref" + ext)
             ref_counter = os.path.join(work, "ref.count")
-            st, exc = _forked(lambda: _apply(indir, ref_out, kind, ref_counter, None, logger))
+            order = ids if case.get("ordered") else None
+            st, exc = _forked(lambda: _apply(indir, ref_out, kind, ref_counter, None, logger, ids=order))
             rec = {"case": case, "ref_status": st, "ref_exc": exc, "ref_order": _lines(ref_counter), "runs": []}
             if st == {"exit": 0}:
                 rec["ref_store"] = _store_dump(ref_out, kind)
-                for k in case["kills"]:
-                    out = os.path.join(work, f"k{k}" + ext)
-                    c1 = os.path.join(work, f"k{k}.count1")
-                    c2 = os.path.join(work, f"k{k}.count2")
-                    st1, exc1 = _forked(lambda: _apply(indir, out, kind, c1, k, logger))
-                    run = {"k": k, "first_status": st1, "first_exc": exc1, "first_executed": _lines(c1)}
+                rec["ref_meta"] = _store_meta(ref_out, kind)
+                kills = [(k, None) for k in case["kills"]] + [(None, w) for w in case.get("kills_after_write", [])]
+                for k, kw in kills:
+                    tagk = f"k{k}" if kw is None else f"w{kw}"
+                    out = os.path.join(work, tagk + ext)
+                    c1 = os.path.join(work, tagk + ".count1")
+                    c2 = os.path.join(work, tagk + ".count2")
+                    st1, exc1 = _forked(lambda: _apply(indir, out, kind, c1, k, logger, ids=order, kill_after_writes=kw))
+                    run = {"k": k, "after_write": kw, "first_status": st1, "first_exc": exc1, "first_executed": _lines(c1)}
                     try:
                         run["store_after_kill"] = _store_dump(out, kind)
                     except Exception as e:  # noqa: BLE001
                         run["store_after_kill_error"] = f"{type(e).__name__}: {e}"[:300]
-                    st2, exc2 = _forked(lambda: _apply(indir, out, kind, c2, None, logger))
+                    st2, exc2 = _forked(lambda: _apply(indir, out, kind, c2, None, logger, ids=order))
                     run.update(second_status=st2, second_exc=exc2, second_executed=_lines(c2))
                     try:
                         run["store_final"] = _store_dump(out, kind)
+                        run["meta_final"] = _store_meta(out, kind)
                     except Exception as e:  # noqa: BLE001
                         run["store_final_error"] = f"{type(e).__name__}: {e}"[:300]
                     rec["runs"].append(run)
